@@ -4,6 +4,7 @@ from fractions import Fraction
 import numpy as np
 
 from .. import core, symbols
+from ..translate import linops as tr_linops
 
 ID = "C11"
 PROPS_FILE = "C11"
@@ -12,7 +13,14 @@ RULE = ("correspondence: the linear operator of every class vs the extracted sym
         "non-amplifying coefficients (scalar / vector / SPD-matrix diffusivities with strong off-diagonals, both mixing flags), D = 1..3, odd/even N, dt in {1e-3..1e6}, several L, rollouts; "
         "strict decay of every non-constant single mode (also negative leading-axis wavenumbers) for diffusive classes; exact norm preservation of advection/dispersion on odd grids and Nyquist-free states; "
         "wave energy conservation for L from 1 to 1e5. Non-trivial: random states; distinct by input hash.")
+TRUSTED_EXTRA = ["harness/translate/linops.py (the symbols of Advection / Dispersion / HyperDiffusion / Diffusion whose real parts are proved for the source text)"]
 ASSUMPTIONS = ["|exp(z)| = exp(Re z) <= 1 for Re z <= 0 (real exponential)", "Parseval with the half-spectrum weights (checked numerically; conjugation-free version proved in C16)"]
+
+
+def translate(ctx):
+    """Gen/LinOps.v: the per-mode symbols of the source (theorem C11_code_symbols_do_not_amplify through Tie/LinOpsTie.v and
+    Tie/NonAmplTie.v); on failure the file is replaced by a stub"""
+    tr_linops.run()
 
 
 def _ex():
